@@ -524,12 +524,31 @@ func c03RunBM(c *c03Case, mem []byte, canary []byte) {
 	feat := func(s string) { c.Feat = append(c.Feat, s) }
 	n := len(c.Pairs)
 	pairs := make([]*SizePercentPair, n)
-	c.Guard = n >= 1 && c.MemLen+bufferListHeaderSize < 1<<32 && n < 1<<16
+	// the hypotheses of the proved statements: C03_buffers_partial (mapping below 4 GiB - 36 B, any percentages),
+	// or C03_buffers_config (what VerifyConfig enforces: percent sum = 100 in int, sizes <= capacity < 2^32 — plus
+	// size+20 < 2^32 and room for the list headers, which the code does not enforce)
+	partial := n >= 1 && c.MemLen+bufferListHeaderSize < 1<<32 && n < 1<<16
+	config := n >= 1 && c.MemLen < 1<<32 && bufferListHeaderSize*int64(n)+bufferManagerHeaderSize <= c.MemLen
+	psum := int64(0)
 	for i, p := range c.Pairs {
 		pairs[i] = &SizePercentPair{Size: uint32(p[0]), Percent: uint32(p[1])}
+		psum += p[1]
 		if p[0] > c.MemLen {
-			c.Guard = false
+			partial, config = false, false
 		}
+		if p[0]+bufferHeaderSize >= 1<<32 {
+			config = false
+		}
+	}
+	c.Guard = partial || (config && psum == 100)
+	// does the library's own VerifyConfig accept this configuration?  (classifies what happens outside the guards)
+	verifyOK := false
+	if c.MemLen < 1<<32 {
+		conf := DefaultConfig()
+		conf.ShareMemoryBufferCap = uint32(c.MemLen)
+		conf.BufferSliceSizes = pairs
+		conf.ShareMemoryPathPrefix, conf.QueuePath = "/dev/shm/verif_c03_cfg", "/dev/shm/verif_c03_cfg_queue"
+		verifyOK = VerifyConfig(conf) == nil
 	}
 	var a, b *bufferManager
 	var err error
@@ -553,6 +572,8 @@ func c03RunBM(c *c03Case, mem []byte, canary []byte) {
 	if c.Create == "Panic" {
 		if c.Guard {
 			add("panic: createBufferManager panicked")
+		} else if verifyOK {
+			c.Degen = append(c.Degen, "createBufferManager panics on a configuration VerifyConfig accepts: Size + bufferHeaderSize wraps in uint32")
 		} else {
 			c.Degen = append(c.Degen, "createBufferManager panics on a configuration VerifyConfig would reject")
 		}
@@ -640,28 +661,38 @@ func c03QueueOf(q *queue, base uintptr, dataOff int64) c03Queue {
 }
 
 // heap queue: createQueueFromBytes + mappingQueueFromBytes on the same bytes
-func c03RunQ(c *c03Case) {
+func c03RunQ(c *c03Case, big bool) {
 	add := func(s string) { c.Oracle = append(c.Oracle, s) }
-	data := make([]byte, c.QDataLen+c03Slack)
-	for i := range data {
-		data[i] = 0xEE
+	var data, d []byte
+	if big {
+		// a capacity whose ring is gigabytes long: an anonymous, lazily backed private mapping of exactly the
+		// length the capacity needs (MAP_NORESERVE); only the header page and the pages of the elements we touch
+		// are ever backed.  Unmapped right away.
+		m, err := syscall.Mmap(-1, 0, int(c.QDataLen), syscall.PROT_READ|syscall.PROT_WRITE, syscall.MAP_ANON|syscall.MAP_PRIVATE|syscall.MAP_NORESERVE)
+		if err != nil {
+			c.Skipped = "mmap: " + err.Error()
+			return
+		}
+		defer syscall.Munmap(m)
+		data, d = m, m[:c.QDataLen:c.QDataLen]
+	} else {
+		data = make([]byte, c.QDataLen+c03Slack)
+		for i := range data {
+			data[i] = 0xEE
+		}
+		for i := c.QDataLen; i < int64(len(data)); i++ {
+			data[i] = c03Canary
+		}
+		d = data[:c.QDataLen:c.QDataLen]
 	}
-	for i := c.QDataLen; i < int64(len(data)); i++ {
-		data[i] = c03Canary
-	}
-	d := data[:c.QDataLen:c.QDataLen]
-	full := queueHeaderLength+queueElementLen*c.QCap < 1<<32
-	c.Guard = full && c.QDataLen == queueHeaderLength+queueElementLen*c.QCap
+	// the property speaks about a queue whose memory is what its capacity needs (every uint32 capacity)
+	c.Guard = c.QDataLen == queueHeaderLength+queueElementLen*c.QCap
 	base := uintptr(unsafe.Pointer(&data[0]))
 	var qa, qb *queue
 	if p, _ := c03Try(func() { qa = createQueueFromBytes(d, uint32(c.QCap)) }); p {
 		c.QCreate = "Panic"
 		if c.Guard {
 			add("panic: createQueueFromBytes panicked")
-		} else if !full && uint32(uint64(queueHeaderLength)+uint64(c.QCap)*queueElementLen) < queueHeaderLength {
-			// the wrapped end lies below the header length: data[24:end] panics whatever the memory length
-			// (a wrapped end beyond a SHORT test memory also panics, but would not on the 8 GiB the capacity asks for)
-			c.Degen = append(c.Degen, "createQueueFromBytes panics when 24+12*cap wraps in uint32")
 		}
 		return
 	}
@@ -699,19 +730,15 @@ func c03RunQ(c *c03Case) {
 	}
 	if c.Guard {
 		c.Oracle = append(c.Oracle, orc...)
-	} else if !full {
-		for _, s := range orc {
-			c.Degen = append(c.Degen, s+" when 24+12*cap wraps in uint32")
-		}
-		// what the first put does on such a queue (it believes it has room for cap elements)
-		if p, _ := c03Try(func() { _ = qa.put(queueElement{seqID: 1, offsetInShmBuf: 2, status: 3}) }); p {
-			c.Degen = append(c.Degen, "queue: put panics on a fresh queue when 24+12*cap wraps in uint32")
-		}
 	}
 	// round trip through the ring when it can hold something
 	if c.Guard && c.QCap > 0 {
 		e := queueElement{seqID: 0xC03, offsetInShmBuf: uint32(c.ID), status: 7}
-		if p, _ := c03Try(func() {
+		if p, msg := c03Try(func() {
+			if big {
+				// start at the LAST element of the ring, so the far end of the mapping is really used
+				*qa.head, *qa.tail = c.QCap-1, c.QCap-1
+			}
 			for k := int64(0); k < c.QCap && k < 5; k++ {
 				if qa.put(e) != nil {
 					add("queue: put fails on a non-full queue")
@@ -722,7 +749,7 @@ func c03RunQ(c *c03Case) {
 				add("queue: element put through the creator's view is not popped through the mapper's view")
 			}
 		}); p {
-			add("panic: put/pop on a fresh queue panicked")
+			add("panic: put/pop on a fresh queue panicked: " + msg)
 		}
 	}
 }
@@ -1003,7 +1030,27 @@ func TestVerif_C03(t *testing.T) {
 		emit(c)
 	}
 
-	// (2) queues over heap bytes: every small capacity, random ones, and the uint32 wrap-arounds
+	// (1b) the last bytes below 4 GiB, on a lazily backed anonymous mapping of 2^32-1 bytes (only the pages of the
+	// headers that are written get backed): two honest configurations VerifyConfig accepts (C03_buffers_config
+	// regime, where C03_buffers_partial's guard fails), and the accepted configuration whose Size+20 wraps to 0
+	for _, pairs := range [][][2]int64{
+		{{1 << 31, 100}},
+		{{1 << 30, 50}, {1<<30 + 4096, 50}},
+		{{(1 << 32) - bufferHeaderSize, 100}},
+	} {
+		memLen := int64(1)<<32 - 1
+		c := &c03Case{ID: id, Kind: "bm", Gen: "4 GiB - 1 mapping, lazily mapped", Pairs: pairs, MemLen: memLen, Fill: 0}
+		m, err := syscall.Mmap(-1, 0, int(memLen), syscall.PROT_READ|syscall.PROT_WRITE, syscall.MAP_ANON|syscall.MAP_PRIVATE|syscall.MAP_NORESERVE)
+		if err != nil {
+			c.Skipped = "mmap: " + err.Error()
+		} else {
+			c03RunBM(c, m[:memLen:memLen], nil)
+			_ = syscall.Munmap(m)
+		}
+		emit(c)
+	}
+
+	// (2) queues over heap bytes: every small capacity, random ones, and capacities beyond 2^32/12
 	var caps []int64
 	for k := int64(0); k <= 20; k++ {
 		caps = append(caps, k)
@@ -1013,24 +1060,31 @@ func TestVerif_C03(t *testing.T) {
 	}
 	for _, qc := range caps {
 		c := &c03Case{ID: id, Kind: "q", Gen: "exact memory", QCap: qc, QDataLen: queueHeaderLength + queueElementLen*qc}
-		c03RunQ(c)
+		c03RunQ(c, false)
 		emit(c)
 	}
-	// memory shorter / longer than the capacity needs (what a mapper of a foreign file would face), and
-	// capacities whose byte size wraps in uint32 (tried on small memory: the wrapped end decides)
-	wraps := []int64{357913939, 357913940, 357913941, 357913942, 357913943, 357913950, 715827882, 715827883, 1 << 31, (1 << 32) - 1, (1 << 32) - 2}
-	for _, qc := range wraps {
+	// capacities whose byte size does not fit a uint32 (the ring end was computed in uint32 before /repo 97d22d3):
+	// three of them on a lazily backed mapping of the full length, put/pop at the last element; all of them on
+	// memory far too short for the capacity (the slice expression must panic, as for any short memory)
+	large := []int64{357913939, 357913940, 357913941, 357913942, 357913943, 357913950, 715827882, 715827883, 1 << 31, (1 << 32) - 1, (1 << 32) - 2}
+	for _, qc := range []int64{357913940, 357913942, 715827883} {
+		c := &c03Case{ID: id, Kind: "q", Gen: "large capacity, lazily mapped", QCap: qc, QDataLen: queueHeaderLength + queueElementLen*qc}
+		c03RunQ(c, true)
+		emit(c)
+	}
+	for _, qc := range large {
 		for _, dl := range []int64{24, 64, 4096} {
-			c := &c03Case{ID: id, Kind: "q", Gen: "uint32 wrap", QCap: qc, QDataLen: dl}
-			c03RunQ(c)
+			c := &c03Case{ID: id, Kind: "q", Gen: "large capacity, short memory", QCap: qc, QDataLen: dl}
+			c03RunQ(c, false)
 			emit(c)
 		}
 	}
+	// memory shorter / longer than the capacity needs (what a mapper of a foreign file would face)
 	for k := 0; k < 30; k++ {
 		qc := c03LogUniform(r, 0, 2000)
 		dl := int64(r.intn(int(queueHeaderLength+queueElementLen*qc) + 40))
 		c := &c03Case{ID: id, Kind: "q", Gen: "memory/capacity mismatch", QCap: qc, QDataLen: dl}
-		c03RunQ(c)
+		c03RunQ(c, false)
 		emit(c)
 	}
 
